@@ -208,6 +208,11 @@ def followups_for(spec_unit):
         "concatenate": lambda x: np.concatenate([np.atleast_1d(x), np.atleast_1d(x)]),
         # units PARSED AFTER the hop from the restored registry's table (not the unit object that travelled with the data):
         # the guards (angle, temperature, logarithmic) must see them exactly as in the original registry
+        # a quotient of commensurable quantities spelled with other symbols: the numeric factor left in the unit is folded
+        # into the numbers exactly as for the original
+        "div-by-alt": lambda x: x / unyt_quantity(2.0, alt, registry=reg_of(x)),
+        "rdiv-by-alt": lambda x: unyt_quantity(2.0, alt, registry=reg_of(x)) / x,
+        "mul-by-inverse-alt": lambda x: x * (1.0 / unyt_quantity(2.0, alt, registry=reg_of(x))),
         "to-alt-then-mul2": lambda x: x.to(alt) * 2.0,
         "to-alt-then-rmul2": lambda x: 2.0 * x.to(alt),
         "to-alt-then-sub-self": lambda x: x.to(alt) - x.to(alt),
@@ -505,7 +510,7 @@ def run(ctx):
     shards = [cases[i::128] for i in range(128)]
     harness.pmap(ctx, shard_fn, shards)
     harness.pmap(ctx, part_txt_columns, [["\t"], [","], [" "]])
-    harness.pmap(ctx, part_txt_single, [["km"], ["degC"], ["g*cm/s**2"], ["dimensionless"]])
+    harness.pmap(ctx, part_txt_single, [["km"], ["degC"], ["g*cm/s**2"], ["dimensionless"], ["percent"], ["mol"], ["Zsun"]])
     return {
         "coverage": {
             "rule": "one evaluation = object x hop sequence x order, built and run from a reset world; a decided case = one follow-up operation "
